@@ -1451,4 +1451,391 @@ theorem procStep_panics_on_keyless_publisher [DecidableEq H] (cfg : Cfg) (pc : P
   rw [procStep_keyless cfg pc f rs sg s p u sender hk]
   simp only [hpin, Bool.false_eq_true, if_false]
 
+
+/-! ### what is handed to `broadcastUnit`, in ANY step -/
+
+/-- Every step of a subprocessor hands at most one unit to `broadcastUnit`; it carries the local
+shard index; the local shard had not been forwarded before; and afterwards it counts as forwarded
+(if the subprocessor keeps running). A subprocessor that has forwarded forwards nothing more. -/
+theorem subStep_bcast_spec [DecidableEq H] (cfg : Cfg) (pc : PCfg) (f : HashFns H) (rs : RS)
+    (sg : SigScheme H) (s : Sched) (publisher : Bytes) (li : Nat) (st : SubState H) (u : PUnit H)
+    (sender : Bytes) :
+    (∀ st' bc b, subStep cfg pc f rs sg s publisher li st u sender = .running st' bc b →
+      bc.length ≤ 1 ∧ (∀ lu ∈ bc, lu.index = li ∧ st.localSent = false ∧ (lu = u ∨ b ≠ none)) ∧
+      (st.localSent = true → st'.localSent = true) ∧ (bc ≠ [] → st'.localSent = true)) ∧
+    (∀ e bc b, subStep cfg pc f rs sg s publisher li st u sender = .finished e bc b →
+      bc.length ≤ 1 ∧ (∀ lu ∈ bc, lu.index = li ∧ st.localSent = false ∧ (lu = u ∨ b ≠ none))) := by
+  unfold subStep
+  cases hb : st.built with
+  | some x =>
+    simp only
+    cases hv : validate cfg f sg s publisher st.v u sender with
+    | error e =>
+      simp only
+      refine ⟨?_, (by intro e bc b h; cases h)⟩
+      intro st' bc b h
+      injection h with h1 h2 _
+      subst h1; subst h2
+      exact ⟨by simp, by simp, fun h => h, by simp⟩
+    | ok v' =>
+      simp only
+      by_cases c1 : u.index = li
+      · simp only [c1, if_true]
+        refine ⟨?_, (by intro e bc b h; cases h)⟩
+        intro st' bc b h
+        injection h with h1 h2 _
+        subst h1; subst h2
+        exact ⟨by simp, by simp, fun h => h, by simp⟩
+      · simp only [c1, if_false]
+        by_cases c2 : st.count + 1 = s.receiveThreshold
+        · simp only [c2, if_true]
+          refine ⟨(by intro st' bc b h; cases h), ?_⟩
+          intro e bc b h
+          injection h with _ h2 _
+          subst h2
+          exact ⟨by simp, by simp⟩
+        · simp only [c2, if_false]
+          refine ⟨?_, (by intro e bc b h; cases h)⟩
+          intro st' bc b h
+          injection h with h1 h2 _
+          subst h1; subst h2
+          exact ⟨by simp, by simp, fun h => h, by simp⟩
+  | none =>
+    simp only
+    cases hv : validate cfg f sg s publisher st.v u sender with
+    | error e =>
+      simp only
+      by_cases c0 : st.count = 0
+      · simp only [c0, if_true]
+        exact ⟨(by intro st' bc b h; cases h), (by intro e bc b h; cases h)⟩
+      · simp only [c0, if_false]
+        refine ⟨?_, (by intro e bc b h; cases h)⟩
+        intro st' bc b h
+        injection h with h1 h2 _
+        subst h1; subst h2
+        exact ⟨by simp, by simp, fun h => h, by simp⟩
+    | ok v' =>
+      simp only
+      -- the unit forwarded directly
+      have hbc1 : ∀ lu ∈ (if (!st.localSent && li == u.index) = true then [u] else []),
+          lu.index = li ∧ st.localSent = false ∧ lu = u := by
+        intro lu hlu
+        by_cases hc : (!st.localSent && li == u.index) = true
+        · simp only [hc, if_true, List.mem_singleton] at hlu
+          subst hlu
+          simp only [Bool.and_eq_true, Bool.not_eq_true', beq_iff_eq] at hc
+          exact ⟨hc.2.symm, hc.1, rfl⟩
+        · simp [hc] at hlu
+      have hlen1 : (if (!st.localSent && li == u.index) = true then [u] else []).length ≤ 1 := by
+        split <;> simp
+      have hsent1 : (if (!st.localSent && li == u.index) = true then [u] else []) ≠ [] →
+          (st.localSent || (!st.localSent && li == u.index)) = true := by
+        intro h
+        by_cases hc : (!st.localSent && li == u.index) = true
+        · simp [hc]
+        · simp [hc] at h
+      have hmono : st.localSent = true → (st.localSent || (!st.localSent && li == u.index)) = true := by
+        intro h; simp [h]
+      by_cases ck : st.count + 1 ≠ s.k
+      · rw [if_pos ck]
+        refine ⟨?_, (by intro e bc b h; cases h)⟩
+        intro st' bc b h
+        injection h with h1 h2 _
+        subst h1; subst h2
+        exact ⟨hlen1, fun lu hlu => by
+          obtain ⟨a, b', c⟩ := hbc1 lu hlu; exact ⟨a, b', Or.inl c⟩, hmono, hsent1⟩
+      · rw [if_neg ck]
+        cases hcn : construct cfg f rs (st.units.set u.index (some u)) li s.k s.c with
+        | panic => exact ⟨(by intro st' bc b h; cases h), (by intro e bc b h; cases h)⟩
+        | err e =>
+          simp only
+          refine ⟨(by intro st' bc b h; cases h), ?_⟩
+          intro e' bc b h
+          injection h with _ h2 _
+          subst h2
+          exact ⟨hlen1, fun lu hlu => by
+            obtain ⟨a, b', c⟩ := hbc1 lu hlu; exact ⟨a, b', Or.inl c⟩⟩
+        | ok r =>
+          obtain ⟨msg, shard, proof⟩ := r
+          simp only
+          by_cases hsent : (st.localSent || (!st.localSent && li == u.index)) = true
+          · simp only [hsent, if_true]
+            by_cases ct : st.count + 1 = s.receiveThreshold
+            · simp only [ct, if_true]
+              refine ⟨(by intro st' bc b h; cases h), ?_⟩
+              intro e' bc b h
+              injection h with _ h2 _
+              subst h2
+              exact ⟨hlen1, fun lu hlu => by
+                obtain ⟨a, b', c⟩ := hbc1 lu hlu; exact ⟨a, b', Or.inl c⟩⟩
+            · simp only [ct, if_false]
+              refine ⟨?_, (by intro e bc b h; cases h)⟩
+              intro st' bc b h
+              injection h with h1 h2 _
+              subst h1; subst h2
+              exact ⟨hlen1, fun lu hlu => by
+                obtain ⟨a, b', c⟩ := hbc1 lu hlu; exact ⟨a, b', Or.inl c⟩, fun _ => rfl, fun _ => rfl⟩
+          · simp only [hsent, Bool.false_eq_true, if_false]
+            have hnot : (!st.localSent && li == u.index) = false := by
+              cases hx : (!st.localSent && li == u.index) with
+              | false => rfl
+              | true => rw [hx] at hsent; simp at hsent
+            have hls : st.localSent = false := by
+              cases hx : st.localSent with
+              | false => rfl
+              | true => rw [hx] at hsent; simp at hsent
+            cases hfu : fillUnit pc (st.units.set u.index (some u)) with
+            | none => exact ⟨(by intro st' bc b h; cases h), (by intro e bc b h; cases h)⟩
+            | some u0 =>
+              simp only [hnot, Bool.false_eq_true, if_false, List.nil_append]
+              by_cases ct : st.count + 1 + 1 = s.receiveThreshold
+              · simp only [ct, if_true]
+                refine ⟨(by intro st' bc b h; cases h), ?_⟩
+                intro e' bc b h
+                injection h with _ h2 h3
+                subst h2; subst h3
+                refine ⟨by simp, ?_⟩
+                intro lu hlu
+                simp only [List.mem_singleton] at hlu
+                subst hlu
+                exact ⟨rfl, hls, Or.inr (by simp)⟩
+              · simp only [ct, if_false]
+                refine ⟨?_, (by intro e bc b h; cases h)⟩
+                intro st' bc b h
+                injection h with h1 h2 h3
+                subst h1; subst h2; subst h3
+                refine ⟨by simp, ?_, fun _ => rfl, fun _ => rfl⟩
+                intro lu hlu
+                simp only [List.mem_singleton] at hlu
+                subst hlu
+                exact ⟨rfl, hls, Or.inr (by simp)⟩
+
+
+theorem subStep_firstInvalid_count [DecidableEq H] (cfg : Cfg) (pc : PCfg) (f : HashFns H) (rs : RS)
+    (sg : SigScheme H) (s : Sched) (publisher : Bytes) (li : Nat) (st : SubState H) (u : PUnit H)
+    (sender : Bytes) (h : subStep cfg pc f rs sg s publisher li st u sender = .firstInvalid) :
+    st.count = 0 := by
+  unfold subStep at h
+  cases hb : st.built with
+  | some x =>
+    simp only [hb] at h
+    cases hv : validate cfg f sg s publisher st.v u sender with
+    | error e => simp [hv] at h
+    | ok v' =>
+      simp only [hv] at h
+      by_cases c1 : u.index = li
+      · simp [c1] at h
+      · by_cases c2 : st.count + 1 = s.receiveThreshold <;> simp [c1, c2] at h
+  | none =>
+    simp only [hb] at h
+    cases hv : validate cfg f sg s publisher st.v u sender with
+    | error e =>
+      simp only [hv] at h
+      by_cases c0 : st.count = 0
+      · exact c0
+      · simp [c0] at h
+    | ok v' =>
+      simp only [hv] at h
+      by_cases ck : st.count + 1 ≠ s.k
+      · rw [if_pos ck] at h; cases h
+      · rw [if_neg ck] at h
+        cases hcn : construct cfg f rs (st.units.set u.index (some u)) li s.k s.c with
+        | panic => simp [hcn] at h
+        | err e => simp [hcn] at h
+        | ok r =>
+          obtain ⟨msg, shard, proof⟩ := r
+          simp only [hcn] at h
+          by_cases hsent : (st.localSent || (!st.localSent && li == u.index)) = true
+          · simp only [hsent, if_true] at h
+            by_cases ct : st.count + 1 = s.receiveThreshold <;> simp [ct] at h
+          · simp only [hsent, Bool.false_eq_true, if_false] at h
+            cases hfu : fillUnit pc (st.units.set u.index (some u)) with
+            | none => simp [hfu] at h
+            | some u0 =>
+              simp only [hfu] at h
+              by_cases ct : st.count + 1 + 1 = s.receiveThreshold <;> simp [ct] at h
+
+/-- The local unit of message key `K` has been forwarded (or the message is finished). -/
+def Sent [DecidableEq H] (p : Proc H) (K : MsgKey H) : Prop :=
+  p.finalized.contains K = true ∨ ∃ st, p.findSub K = some st ∧ st.localSent = true
+
+theorem procStep_bcast_marks_sent [DecidableEq H] (cfg : Cfg) (pc : PCfg) (f : HashFns H) (rs : RS)
+    (sg : SigScheme H) (s : Sched) (p : Proc H) (u : PUnit H) (sender : Bytes)
+    (bc : List (PUnit H)) (b : Option Bytes) (e : Option Bool)
+    (h : (procStep cfg pc f rs sg s p u sender).2 = .handled bc b e) :
+    bc.length ≤ 1 ∧ (bc ≠ [] → Sent (procStep cfg pc f rs sg s p u sender).1 (keyOf u)) ∧
+    ∃ li, s.shardIndexFor u.publisher = .ok li ∧ ∀ lu ∈ bc, lu.index = li ∧ (lu = u ∨ b ≠ none) := by
+  cases hk : keylessNew sg s p u with
+  | true => exact absurd h (procStep_not_handled_of_keyless cfg pc f rs sg s p u sender hk _ _ _)
+  | false =>
+    rw [procStep_keyed cfg pc f rs sg s p u sender hk] at h ⊢
+    unfold procStepCore at h ⊢
+    by_cases hf : p.finalized.contains (keyOf u) = true
+    · rw [if_pos hf] at h; cases h
+    · rw [if_neg hf] at h ⊢
+      cases hsi : s.shardIndexFor (keyOf u).publisher with
+      | error e => simp [hsi] at h
+      | ok li =>
+        simp only [hsi] at h ⊢
+        obtain ⟨hr, hfn⟩ := subStep_bcast_spec cfg pc f rs sg s (keyOf u).publisher li
+          ((p.findSub (keyOf u)).getD (SubState.fresh s.total)) u sender
+        cases hss : subStep cfg pc f rs sg s (keyOf u).publisher li
+            ((p.findSub (keyOf u)).getD (SubState.fresh s.total)) u sender with
+        | running st' bc' b' =>
+          simp only [hss] at h ⊢
+          injection h with h1 h2 _
+          subst h1; subst h2
+          obtain ⟨a1, a2, _, a4⟩ := hr st' bc' b' hss
+          refine ⟨a1, fun hne => Or.inr ⟨st', by rw [findSub_setSub]; simp, a4 hne⟩, li, by simpa [keyOf] using hsi, ?_⟩
+          intro lu hlu; exact ⟨(a2 lu hlu).1, (a2 lu hlu).2.2⟩
+        | finished e' bc' b' =>
+          simp only [hss] at h ⊢
+          injection h with h1 h2 _
+          subst h1; subst h2
+          obtain ⟨a1, a2⟩ := hfn e' bc' b' hss
+          refine ⟨a1, fun _ => Or.inl (by simp), li, by simpa [keyOf] using hsi, ?_⟩
+          intro lu hlu; exact ⟨(a2 lu hlu).1, (a2 lu hlu).2.2⟩
+        | firstInvalid =>
+          simp only [hss] at h
+          split at h
+          · injection h with h1 _ _; subst h1
+            exact ⟨by simp, fun hne => absurd rfl hne, li, by simpa [keyOf] using hsi, by simp⟩
+          · injection h with h1 _ _; subst h1
+            exact ⟨by simp, fun hne => absurd rfl hne, li, by simpa [keyOf] using hsi, by simp⟩
+        | panic => simp [hss] at h
+
+theorem procStep_sent_stable [DecidableEq H] (cfg : Cfg) (pc : PCfg) (f : HashFns H) (rs : RS)
+    (sg : SigScheme H) (s : Sched) (p : Proc H) (hp : ProcInv s p) (K : MsgKey H) (hd : Sent p K)
+    (u : PUnit H) (sender : Bytes) :
+    Sent (procStep cfg pc f rs sg s p u sender).1 K ∧
+    (keyOf u = K → ∀ bc b e, (procStep cfg pc f rs sg s p u sender).2 = .handled bc b e → bc = []) := by
+  cases hk : keylessNew sg s p u with
+  | true =>
+    refine ⟨by rw [procStep_keyless cfg pc f rs sg s p u sender hk]; exact hd, fun _ bc b e h => ?_⟩
+    exact absurd h (procStep_not_handled_of_keyless cfg pc f rs sg s p u sender hk _ _ _)
+  | false =>
+    rw [procStep_keyed cfg pc f rs sg s p u sender hk]
+    unfold procStepCore
+    by_cases hf : p.finalized.contains (keyOf u) = true
+    · rw [if_pos hf]
+      exact ⟨hd, fun _ bc b e h => by cases h⟩
+    · rw [if_neg hf]
+      cases hsi : s.shardIndexFor (keyOf u).publisher with
+      | error e => exact ⟨hd, fun _ bc b e h => by cases h⟩
+      | ok li =>
+        simp only
+        by_cases hkk : keyOf u = K
+        · subst hkk
+          rcases hd with hd | ⟨st, hfs, hls⟩
+          · exact absurd hd hf
+          · rw [hfs]
+            simp only [Option.getD_some]
+            obtain ⟨hr, hfn⟩ := subStep_bcast_spec cfg pc f rs sg s (keyOf u).publisher li st u sender
+            have hcnt := (hp _ _ hfs).2.2
+            cases hss : subStep cfg pc f rs sg s (keyOf u).publisher li st u sender with
+            | running st' bc' b' =>
+              obtain ⟨_, a2, a3, _⟩ := hr st' bc' b' hss
+              simp only
+              refine ⟨Or.inr ⟨st', by rw [findSub_setSub]; simp, a3 hls⟩, fun _ bc b e h => ?_⟩
+              injection h with h1 _ _
+              subst h1
+              cases hbc : bc' with
+              | nil => rfl
+              | cons x xs =>
+                have := (a2 x (by rw [hbc]; simp)).2.1
+                rw [hls] at this; cases this
+            | finished e' bc' b' =>
+              obtain ⟨_, a2⟩ := hfn e' bc' b' hss
+              simp only
+              refine ⟨Or.inl (by simp), fun _ bc b e h => ?_⟩
+              injection h with h1 _ _
+              subst h1
+              cases hbc : bc' with
+              | nil => rfl
+              | cons x xs =>
+                have := (a2 x (by rw [hbc]; simp)).2.1
+                rw [hls] at this; cases this
+            | firstInvalid =>
+              have := subStep_firstInvalid_count cfg pc f rs sg s _ li st u sender hss
+              omega
+            | panic => exact ⟨Or.inr ⟨st, hfs, hls⟩, fun _ bc b e h => by cases h⟩
+        · have hne : ¬ K = keyOf u := fun e => hkk e.symm
+          have hfind_set : ∀ st', (p.setSub (keyOf u) st').findSub K = p.findSub K := by
+            intro st'; rw [findSub_setSub, if_neg hne]
+          have hfind_drop : (p.dropSub (keyOf u)).findSub K = p.findSub K := by
+            rw [findSub_dropSub, if_neg hne]
+          have hcons : p.finalized.contains K = true → (keyOf u :: p.finalized).contains K = true := by
+            intro h; simp only [List.contains_cons, h, Bool.or_true]
+          have hs_set : ∀ st', Sent (p.setSub (keyOf u) st') K := by
+            intro st'
+            rcases hd with hd | ⟨st, hfs, hb⟩
+            · exact Or.inl hd
+            · exact Or.inr ⟨st, by rw [hfind_set]; exact hfs, hb⟩
+          have hs_drop : Sent (p.dropSub (keyOf u)) K := by
+            rcases hd with hd | ⟨st, hfs, hb⟩
+            · exact Or.inl hd
+            · exact Or.inr ⟨st, by rw [hfind_drop]; exact hfs, hb⟩
+          have hs_fin : Sent (⟨keyOf u :: p.finalized, (p.dropSub (keyOf u)).subs⟩ : Proc H) K := by
+            rcases hd with hd | ⟨st, hfs, hb⟩
+            · exact Or.inl (hcons hd)
+            · exact Or.inr ⟨st, by
+                have : (⟨keyOf u :: p.finalized, (p.dropSub (keyOf u)).subs⟩ : Proc H).findSub K =
+                    (p.dropSub (keyOf u)).findSub K := rfl
+                rw [this, hfind_drop]; exact hfs, hb⟩
+          cases subStep cfg pc f rs sg s (keyOf u).publisher li
+              ((p.findSub (keyOf u)).getD (SubState.fresh s.total)) u sender with
+          | running st' bc' b' => exact ⟨hs_set st', fun e => absurd e hkk⟩
+          | finished e' bc' b' => exact ⟨hs_fin, fun e => absurd e hkk⟩
+          | firstInvalid =>
+            simp only
+            split
+            · exact ⟨hs_drop, fun e => absurd e hkk⟩
+            · exact ⟨hs_fin, fun e => absurd e hkk⟩
+          | panic => exact ⟨hd, fun e => absurd e hkk⟩
+
+theorem procRun_no_bcast_after_sent [DecidableEq H] (cfg : Cfg) (pc : PCfg) (f : HashFns H) (rs : RS)
+    (sg : SigScheme H) (s : Sched) (K : MsgKey H) :
+    ∀ (ops : List (PUnit H × Bytes)) (p : Proc H), ProcInv s p → Sent p K →
+    ∀ (j : Nat) (u : PUnit H) (sender : Bytes) (bc : List (PUnit H)) (b : Option Bytes) (e : Option Bool),
+      ops[j]? = some (u, sender) → keyOf u = K →
+      (procRun cfg pc f rs sg s p ops)[j]? = some (.handled bc b e) → bc = []
+  | [], _, _, _, j, _, _, _, _, _, h, _, _ => by simp at h
+  | (u0, s0) :: rest, p, hp, hd, 0, u, sender, bc, b, e, h, hk, hv => by
+    simp only [List.getElem?_cons_zero, Option.some.injEq, Prod.mk.injEq] at h
+    obtain ⟨rfl, rfl⟩ := h
+    simp only [procRun, List.getElem?_cons_zero, Option.some.injEq] at hv
+    exact (procStep_sent_stable cfg pc f rs sg s p hp K hd u0 s0).2 hk bc b e hv
+  | (u0, s0) :: rest, p, hp, hd, j + 1, u, sender, bc, b, e, h, hk, hv => by
+    simp only [List.getElem?_cons_succ] at h
+    simp only [procRun, List.getElem?_cons_succ] at hv
+    exact procRun_no_bcast_after_sent cfg pc f rs sg s K rest _
+      (procStep_inv cfg pc f rs sg s p u0 s0 hp)
+      (procStep_sent_stable cfg pc f rs sg s p hp K hd u0 s0).1 j u sender bc b e h hk hv
+
+/-- Over any sequence of units from a reachable state: the local unit of a message key is handed to
+`broadcastUnit` at most once. -/
+theorem procRun_broadcasts_at_most_once [DecidableEq H] (cfg : Cfg) (pc : PCfg) (f : HashFns H) (rs : RS)
+    (sg : SigScheme H) (s : Sched) :
+    ∀ (ops : List (PUnit H × Bytes)) (p : Proc H), ProcInv s p → ∀ (i j : Nat), i < j →
+    ∀ (ui uj : PUnit H) (si sj : Bytes) (bi bj : List (PUnit H)) (mi mj : Option Bytes) (ei ej : Option Bool),
+      ops[i]? = some (ui, si) → ops[j]? = some (uj, sj) → keyOf ui = keyOf uj →
+      (procRun cfg pc f rs sg s p ops)[i]? = some (.handled bi mi ei) → bi ≠ [] →
+      (procRun cfg pc f rs sg s p ops)[j]? = some (.handled bj mj ej) → bj = []
+  | [], _, _, i, j, _, _, _, _, _, _, _, _, _, _, _, h, _, _, _, _, _ => by simp at h
+  | (u0, s0) :: rest, p, hp, 0, j + 1, _, ui, uj, si, sj, bi, bj, mi, mj, ei, ej, hi, hj, hk, hbi, hne, hbj => by
+    simp only [List.getElem?_cons_zero, Option.some.injEq, Prod.mk.injEq] at hi
+    obtain ⟨rfl, rfl⟩ := hi
+    simp only [List.getElem?_cons_succ] at hj
+    simp only [procRun, List.getElem?_cons_zero, Option.some.injEq] at hbi
+    simp only [procRun, List.getElem?_cons_succ] at hbj
+    exact procRun_no_bcast_after_sent cfg pc f rs sg s (keyOf u0) rest _
+      (procStep_inv cfg pc f rs sg s p u0 s0 hp)
+      ((procStep_bcast_marks_sent cfg pc f rs sg s p u0 s0 bi mi ei hbi).2.1 hne) j uj sj bj mj ej hj hk.symm hbj
+  | (u0, s0) :: rest, p, hp, i + 1, j + 1, hij, ui, uj, si, sj, bi, bj, mi, mj, ei, ej, hi, hj, hk, hbi, hne, hbj => by
+    simp only [List.getElem?_cons_succ] at hi hj
+    simp only [procRun, List.getElem?_cons_succ] at hbi hbj
+    exact procRun_broadcasts_at_most_once cfg pc f rs sg s rest _
+      (procStep_inv cfg pc f rs sg s p u0 s0 hp) i j (by omega) ui uj si sj bi bj mi mj ei ej
+      hi hj hk hbi hne hbj
+
 end Juno.C19
